@@ -127,7 +127,7 @@ class Ctx:
 
     @staticmethod
     def tlc_error_summary(out):
-        keep = [l for l in out.splitlines() if not re.match(r'^(Parsing|Semantic|Linting|Picked up)', l)]
+        keep = [l for l in out.splitlines() if not re.match(r'^(Parsing|Semantic|Linting|Picked up|"SCN )', l)]
         return '\n'.join(keep[-60:])
 
     # ------------------------------------------------------------ trace validation
